@@ -18,7 +18,7 @@ def _created_on_chain(node):
     return created
 
 
-def mutants(tg, parent, rng, tags=('C01', 'C02', 'C05', 'struct'), horizon_env=None):
+def mutants(tg, parent, rng, tags=('C01', 'C02', 'C05', 'struct'), horizon_env=None, with_warm=False):
     env, keys = tg.env, tg.keys
     out = []
     height = parent.height + 1
@@ -123,6 +123,40 @@ def mutants(tg, parent, rng, tags=('C01', 'C02', 'C05', 'struct'), horizon_env=N
                 [spend([a0, a1], sign_with={a1[0]: a0[1][1]})])
             add('first-input-signed-by-second-key', 'C01' if a0[1][1] != a1[1][1] else 'skip',
                 [spend([a0, a1], sign_with={a0[0]: a1[1][1]})])
+            # two inputs paying the SAME key: the first correctly signed, the second signed by another key
+            samek = [(x, y) for x in avail for y in avail if x[0] != y[0] and x[1][1] == y[1][1]]
+            if samek:
+                x_, y_ = samek[0]
+                other_k = [pk for pk in keys.pks if pk != x_[1][1]][0]
+                add('second-input-of-same-key-signed-by-other-key', 'C01', [spend([x_, y_], sign_with={y_[0]: other_k})])
+                add('control-two-inputs-same-key', 'C01', [spend([x_, y_])], expect='accept')
+        # the SAME in-memory transaction object is validated once inside a valid block (as pool admission or an earlier
+        # offer would), then altered -- outputs / inputs lists rebound on the object, or on a deep copy of it -- and offered
+        # in a block: whatever the object remembers from the first validation, the altered content is what counts
+        if 'C01' in tags and with_warm:
+            import copy
+            from skepticoin.datatypes import Output, Input, OutputReference
+            from skepticoin.signing import SECP256k1PublicKey
+            for variant in ('outputs-rebound', 'deepcopy-outputs-rebound', 'input-appended') if len(avail) >= 2 else ('outputs-rebound', 'deepcopy-outputs-rebound'):
+                obj = spend([a0])
+                cbw = coinbase(height, sub, miner, b'w')
+                try:
+                    warm = assemble(env, parent, [cbw, obj], ts)
+                except Exception:
+                    break
+
+                def mutate(obj=obj, variant=variant, cbw=cbw):
+                    t = copy.deepcopy(obj) if variant.startswith('deepcopy') else obj
+                    if variant == 'input-appended':
+                        a1_ = avail[1]
+                        t.inputs = list(t.inputs) + [Input(OutputReference(a1_[0][0], a1_[0][1]), t.inputs[0].signature)]
+                        t.outputs = [Output(v0 + a1_[1][0], SECP256k1PublicKey(keys.pks[3]))]
+                    else:
+                        t.outputs = [Output(v0, SECP256k1PublicKey(keys.pks[3]))]
+                    t.cached_hash = None
+                    return assemble(env, parent, [cbw, t], ts)
+                out.append({'label': 'validated-object-then-' + variant, 'tag': 'C01', 'block': warm, 'warm': warm,
+                            'mutate': mutate, 'now': ts, 'expect': 'reject'})
         add('placeholder-signature', 'C01', [mk_tx([(a0[0][0], a0[0][1], None)], [(v0, keys.pks[1])])])
         add('reward-data-as-signature', 'C01', [mk_tx([(a0[0][0], a0[0][1], ('cb', height, b'zz'))], [(v0, keys.pks[1])])])
         add('null-reference-in-spend', 'C01',
